@@ -953,6 +953,8 @@ fn dump<'tcx>(tcx: TyCtxt<'tcx>, dir: &str) {
                     ("canon", J::s(canon(tcx, did))),
                     ("kind", J::s(format!("{:?}", dk))),
                     ("variants", J::Arr(vs)),
+                    // can code outside this crate name the type? (a type that cannot is an implementation detail)
+                    ("reachable", J::Bool(tcx.effective_visibilities(()).is_reachable(ldid))),
                 ];
                 o.extend(span_j(tcx, tcx.def_span(did)));
                 adts.push(J::obj(o));
